@@ -6,6 +6,7 @@ from ..core.model import AnalysisError, Program
 from ..core.report import CheckContext
 from ..core.resolve import Resolver
 from ..rules import bookkeeping as bk, derived, scale
+from ..rules import unitfree
 from ..rules import inval as _inval_rl
 from .common import run_control, generic_rules, anchor_funcs
 
@@ -15,6 +16,7 @@ def analyse(ctx: CheckContext, p: Program):
     ctx.guard(generic_rules, ctx, p, r, "C01", extra_modules=("OpenPinch/analysis/data_preparation.py",))
     ctx.guard(_inval_rl.check_round_last, ctx, p, r, anchor_funcs(p, "C01"))
     ctx.guard(_specific, ctx, p, r)
+    ctx.guard(unitfree.check_offset_free, ctx, p, r)
 
 
 def _specific(ctx: CheckContext, p: Program, r: Resolver):
@@ -45,6 +47,9 @@ def run(ctx: CheckContext):
     ]
     stp = "OpenPinch/classes/stream.py"
     pta = "OpenPinch/analysis/problem_table_analysis.py"
+    run_control(ctx, "C01/kelvin-offset-in-shared-extractor", analyse, p.root, "OpenPinch/utils/miscellaneous.py",
+                "    elif isinstance(val, ValueWithUnit):\n        return val.value",
+                "    elif isinstance(val, ValueWithUnit):\n        return val.value - 273.15 if val.units == 'K' else val.value", "OFFSET-FREE")
     run_control(ctx, "C01/dt_cont-setter-no-recompute", analyse, p.root, stp,
                 "        self._dt_cont = value\n        self._update_attributes()\n", "        self._dt_cont = value\n", "DERIVED")
     run_control(ctx, "C01/cold-shift-sign", analyse, p.root, stp,
